@@ -67,16 +67,44 @@ pub enum HalfDrop {
     ReadBeforeReply,
 }
 
+/// One step of an endpoint's close sequence, executed by its writer once all chunks are written.
+#[derive(Clone, Copy, Debug, Serialize, Deserialize, PartialEq, Eq)]
+pub enum CloseStep {
+    /// `shutdown().await` on the write half / whole stream (a repeated shutdown is allowed to fail)
+    Shutdown,
+    /// drop the write half (into_split: FIN if not shut down yet; tokio::io::split: no effect on
+    /// the stream until the read half goes too; whole stream: not applicable, skipped)
+    DropWrite,
+    /// sleep this many ms
+    Wait(u8),
+}
+
+/// When an endpoint whose reader has finished (EOF read) lets go of its read half.
+#[derive(Clone, Copy, Debug, Default, Serialize, Deserialize, PartialEq, Eq)]
+pub enum ReadDrop {
+    /// wait for the writer's close sequence, then read half, then (if still alive) write half
+    #[default]
+    AfterWriter,
+    /// at once, while the writer task may still be writing / closing
+    WhenDone,
+    /// wait for the writer's close sequence, then (if still alive) write half, then read half
+    AfterWriterWriteFirst,
+    /// into_split only: wait for the writer, `reunite` the halves (if the write half is still
+    /// alive) and drop the whole stream
+    Reunite,
+}
+
 #[derive(Clone, Debug, Serialize, Deserialize)]
 pub struct Side {
     pub mode: Mode,
-    /// sizes of successive write calls
-    pub chunks: Vec<u16>,
+    /// sizes of successive write calls (one write / try_write call each; heavy-tailed: mostly
+    /// 1..16, a few up to 4 KiB, rarely one around / above 64 KiB up to 1 MiB)
+    pub chunks: Vec<u32>,
     /// pause (ms) before write i (cycled)
     pub write_pauses: Vec<u8>,
     pub close: Close,
     /// (buffer size, peek first?, pause ms before) cycled until EOF
-    pub reads: Vec<(u16, bool, u8)>,
+    pub reads: Vec<(u32, bool, u8)>,
     /// stop reading after this many bytes and drop the stream (abortive if data unread)
     pub reader_quits_after: Option<u32>,
     /// ms the reader waits before its first read (slow reader => back-pressure)
@@ -89,6 +117,12 @@ pub struct Side {
     /// and sit unread in the receive queue)
     #[serde(default)]
     pub linger_ms: u16,
+    /// close sequence of the write side; empty = the legacy single step given by `close`
+    #[serde(default)]
+    pub close_steps: Vec<CloseStep>,
+    /// Reply::Concurrent split modes: when the read half is dropped once the reader is done
+    #[serde(default)]
+    pub read_drop: ReadDrop,
 }
 
 #[derive(Clone, Copy, Debug, Serialize, Deserialize, PartialEq, Eq)]
@@ -160,7 +194,8 @@ pub fn is_known(id: &str) -> bool {
 /// `dir` = direction (0 client->server, 1 server->client) + 2 * connection index;
 /// the patterns of two different (connection, direction) streams differ in every byte
 fn byte(dir: usize, i: usize) -> u8 {
-    ((i.wrapping_mul(131)) ^ (dir * 17) ^ ((i >> 8).wrapping_mul(7)) ^ 0x5c) as u8
+    // the (i >> 16) term breaks the 64 KiB period of the first two (unchanged below 64 KiB)
+    ((i.wrapping_mul(131)) ^ (dir * 17) ^ ((i >> 8).wrapping_mul(7)) ^ ((i >> 16).wrapping_mul(29)) ^ 0x5c) as u8
 }
 
 #[derive(Default, Debug)]
@@ -178,6 +213,10 @@ struct Dir {
     writer_done: bool,
     reader_quit: bool,
     segments: u64,
+    /// largest byte count a single write / try_write call accepted
+    max_write: usize,
+    /// largest byte count a single read call returned
+    max_read: usize,
     /// the reader quit (stopped before EOF) at a moment when the writer of this direction had
     /// already closed its write side and every accepted byte had been consumed: nothing is unread
     /// at the quitter and nothing can arrive any more except the FIN => its drop is graceful
@@ -202,6 +241,13 @@ struct Shared {
     /// classification only: when this connection was opened, the previous one still had
     /// accepted bytes its reader had not consumed (in flight, parked or dropped unread)
     old_outstanding: RefCell<bool>,
+    /// per endpoint (index = the direction it writes): the close events in execution order —
+    /// "S" first shutdown, "S+" repeated shutdown, "DW" write half dropped, "EOF" the endpoint's
+    /// reader read EOF, "DR" read half dropped, "D" whole stream dropped, "RU" halves reunited
+    close_log: [RefCell<Vec<&'static str>>; 2],
+    /// per endpoint: bytes its reader had consumed when its write half was dropped after an
+    /// explicit shutdown while the read half was still alive
+    read_at_shutdown_drop: [RefCell<Option<usize>>; 2],
 }
 
 impl Shared {
@@ -238,14 +284,80 @@ fn note_read_drop(sh: &Shared, d: usize) {
     }
 }
 
+/// close event `ev` of the endpoint that writes direction `wd`
+fn log_close(sh: &Shared, wd: usize, ev: &'static str) {
+    sh.close_log[wd].borrow_mut().push(ev);
+}
+
+/// The close sequence the writer of `side` executes after its last chunk.  `legacy` is what the
+/// endpoint shape did before close sequences existed (used when `close_steps` is empty, so old
+/// replay files keep their meaning).  Normalisation of a generated sequence:
+/// * nothing can follow the drop of the write half;
+/// * a whole stream has no write half to drop (the step is skipped);
+/// * the write half of tokio::io::split only closes the write side through shutdown: a shutdown
+///   is put in front of a drop that has none before it;
+/// * the sequence always closes the write side (a shutdown is appended otherwise), so that a
+///   peer which reads to EOF before it replies is never left waiting.
+fn close_plan(side: &Side, legacy: &[CloseStep]) -> Vec<CloseStep> {
+    if side.close_steps.is_empty() {
+        return legacy.to_vec();
+    }
+    let mut plan: Vec<CloseStep> = Vec::new();
+    let mut shut = false;
+    let mut dropped = false;
+    for st in side.close_steps.iter().take(MAX_CLOSE_STEPS) {
+        match st {
+            CloseStep::Shutdown => {
+                shut = true;
+                plan.push(*st);
+            }
+            CloseStep::Wait(ms) => plan.push(CloseStep::Wait((*ms).min(MAX_CLOSE_WAIT))),
+            CloseStep::DropWrite => match side.mode {
+                Mode::WholeSeq => {}
+                Mode::TokioSplit => {
+                    if !shut {
+                        plan.push(CloseStep::Shutdown);
+                        shut = true;
+                    }
+                    plan.push(*st);
+                    dropped = true;
+                }
+                Mode::IntoSplit => {
+                    plan.push(*st);
+                    dropped = true;
+                }
+            },
+        }
+        if dropped {
+            break;
+        }
+    }
+    let closes = shut || (dropped && side.mode == Mode::IntoSplit);
+    if !closes {
+        plan.push(CloseStep::Shutdown);
+    }
+    plan
+}
+
+pub const MAX_CLOSE_STEPS: usize = 5;
+pub const MAX_CLOSE_WAIT: u8 = 40;
+
+fn legacy_plan(close: Close) -> Vec<CloseStep> {
+    match close {
+        Close::Shutdown => vec![CloseStep::Shutdown],
+        Close::DropWriteHalf => vec![CloseStep::DropWrite],
+    }
+}
+
 async fn pause(ms: u8) {
     if ms > 0 {
         tokio::time::sleep(Duration::from_millis(ms as u64)).await;
     }
 }
 
-/// generic writer over any AsyncWrite
-async fn writer<W: AsyncWrite + Unpin>(sh: Rc<Shared>, d: usize, mut w: W, side: Side) -> W {
+/// generic writer over any AsyncWrite: one `write` call per chunk (repeated for the rest after a
+/// short write), then the close sequence `plan`.  Returns the write half unless the plan dropped it.
+async fn writer<W: AsyncWrite + Unpin>(sh: Rc<Shared>, d: usize, mut w: W, side: Side, plan: Vec<CloseStep>) -> Option<W> {
     let mut off = 0usize;
     for (i, c) in side.chunks.iter().enumerate() {
         let p = if side.write_pauses.is_empty() { 0 } else { side.write_pauses[i % side.write_pauses.len()] };
@@ -269,7 +381,7 @@ async fn writer<W: AsyncWrite + Unpin>(sh: Rc<Shared>, d: usize, mut w: W, side:
                 Ok(0) => {
                     sh.dirs[d].borrow_mut().writer_error = Some("write returned 0".into());
                     sh.dirs[d].borrow_mut().writer_done = true;
-                    return w;
+                    return Some(w);
                 }
                 Ok(n) => {
                     if n > rest.len() {
@@ -278,6 +390,7 @@ async fn writer<W: AsyncWrite + Unpin>(sh: Rc<Shared>, d: usize, mut w: W, side:
                     let mut g = sh.dirs[d].borrow_mut();
                     g.accepted += n;
                     g.segments += 1;
+                    g.max_write = g.max_write.max(n);
                     off += n;
                     rest = &rest[n.min(rest.len())..];
                 }
@@ -285,16 +398,49 @@ async fn writer<W: AsyncWrite + Unpin>(sh: Rc<Shared>, d: usize, mut w: W, side:
                     let mut g = sh.dirs[d].borrow_mut();
                     g.writer_error = Some(format!("{:?}", e.kind()));
                     g.writer_done = true;
-                    return w;
+                    return Some(w);
                 }
             }
         }
     }
-    if side.close == Close::Shutdown {
-        if let Err(e) = w.shutdown().await {
-            sh.dirs[d].borrow_mut().writer_error = Some(format!("shutdown {:?}", e.kind()));
+    let mut w = Some(w);
+    let mut shut = false;
+    for st in plan {
+        match st {
+            CloseStep::Wait(ms) => pause(ms).await,
+            CloseStep::Shutdown => {
+                let Some(wr) = w.as_mut() else { continue };
+                let res = wr.shutdown().await;
+                if !shut {
+                    if let Err(e) = res {
+                        sh.dirs[d].borrow_mut().writer_error = Some(format!("shutdown {:?}", e.kind()));
+                    }
+                    mark_closed(&sh, d);
+                    log_close(&sh, d, "S");
+                    shut = true;
+                } else {
+                    // what a repeated shutdown returns is not part of the property
+                    log_close(&sh, d, "S+");
+                }
+            }
+            CloseStep::DropWrite => {
+                if w.is_some() {
+                    // into_split: the drop itself sends the FIN if there was no shutdown; tokio
+                    // split: the plan has shut down before
+                    mark_closed(&sh, d);
+                    log_close(&sh, d, "DW");
+                    let g = sh.dirs[1 - d].borrow();
+                    if shut && !g.reader_done {
+                        *sh.read_at_shutdown_drop[d].borrow_mut() = Some(g.consumed);
+                    }
+                    drop(g);
+                    drop(w.take());
+                }
+            }
         }
     }
+    // legacy shape: a tokio write half without shutdown closes when both halves are dropped,
+    // which the caller does right after this returns
     mark_closed(&sh, d);
     sh.dirs[d].borrow_mut().writer_done = true;
     w
@@ -341,7 +487,7 @@ async fn reader_loop<R: AsyncRead + Unpin>(
     let mut i = 0usize;
     let mut peek_saw_eof = false;
     loop {
-        let (sz, pk, p) = if side.reads.is_empty() { (64u16, false, 0u8) } else { side.reads[i % side.reads.len()] };
+        let (sz, pk, p) = if side.reads.is_empty() { (64u32, false, 0u8) } else { side.reads[i % side.reads.len()] };
         i += 1;
         pause(p).await;
         if let Some(q) = side.reader_quits_after {
@@ -392,6 +538,7 @@ async fn reader_loop<R: AsyncRead + Unpin>(
                         tokio::time::sleep(Duration::from_millis(1)).await;
                         continue;
                     }
+                    log_close(&sh, 1 - d, "EOF");
                     let mut g = sh.dirs[d].borrow_mut();
                     g.eof = true;
                     // EOF only after the writer closed and everything was consumed
@@ -412,7 +559,9 @@ async fn reader_loop<R: AsyncRead + Unpin>(
                 if !check_bytes(&sh, d, consumed, &buf[..n], "read") {
                     break;
                 }
-                sh.dirs[d].borrow_mut().consumed += n;
+                let mut g = sh.dirs[d].borrow_mut();
+                g.consumed += n;
+                g.max_read = g.max_read.max(n);
             }
             Err(e) => {
                 sh.dirs[d].borrow_mut().reader_error = Some(format!("{:?}", e.kind()));
@@ -464,9 +613,13 @@ async fn whole_write(sh: &Shared, wd: usize, s: &mut TcpStream, side: &Side) -> 
         while !rest.is_empty() {
             match s.try_write(rest) {
                 Ok(n) => {
+                    if n > rest.len() {
+                        sh.fail("write-returned-more-than-given", format!("dir {wd}: try_write accepted {n} of {}", rest.len()));
+                    }
                     let mut g = sh.dirs[wd].borrow_mut();
                     g.accepted += n;
                     g.segments += 1;
+                    g.max_write = g.max_write.max(n);
                     off += n;
                     rest = &rest[n.min(rest.len())..];
                 }
@@ -487,6 +640,30 @@ async fn whole_write(sh: &Shared, wd: usize, s: &mut TcpStream, side: &Side) -> 
     true
 }
 
+/// Close sequence on a whole (unsplit) stream: shutdowns and waits (it has no write half to drop).
+async fn whole_close(sh: &Shared, wd: usize, s: &mut TcpStream, plan: Vec<CloseStep>) {
+    let mut shut = false;
+    for st in plan {
+        match st {
+            CloseStep::Wait(ms) => pause(ms).await,
+            CloseStep::Shutdown => {
+                let res = s.shutdown().await;
+                if !shut {
+                    if let Err(e) = res {
+                        sh.dirs[wd].borrow_mut().writer_error = Some(format!("shutdown {:?}", e.kind()));
+                    }
+                    mark_closed(sh, wd);
+                    log_close(sh, wd, "S");
+                    shut = true;
+                } else {
+                    log_close(sh, wd, "S+");
+                }
+            }
+            CloseStep::DropWrite => {}
+        }
+    }
+}
+
 /// Run one endpoint: `wd` is the direction it writes, `rd` the one it reads.
 async fn endpoint(sh: Rc<Shared>, stream: TcpStream, side: Side, wd: usize, rd: usize) {
     if side.reply == Reply::AfterRead {
@@ -496,56 +673,99 @@ async fn endpoint(sh: Rc<Shared>, stream: TcpStream, side: Side, wd: usize, rd: 
         Mode::IntoSplit => {
             let (mut r, w) = stream.into_split();
             let (sh2, side2) = (sh.clone(), side.clone());
-            let wt = tokio::task::spawn_local(async move {
-                let w = writer(sh2, wd, w, side2.clone()).await;
-                if side2.close == Close::DropWriteHalf {
-                    drop(w);
-                    None
-                } else {
-                    Some(w)
-                }
-            });
+            let plan = close_plan(&side, &legacy_plan(side.close));
+            let wt = tokio::task::spawn_local(async move { writer(sh2, wd, w, side2, plan).await });
             reader_loop(sh.clone(), rd, &mut r, &side, peek_owned).await;
-            if sh.dirs[rd].borrow().reader_quit {
-                // drop the read half now, while the writer task goes on (abortive => RST if data
-                // is unread; graceful if the peer had closed and everything was consumed)
+            if sh.dirs[rd].borrow().reader_quit || side.read_drop == ReadDrop::WhenDone {
+                // drop the read half now, while the writer task goes on (after a quit: abortive
+                // => RST if data is unread; graceful if the peer had closed and everything was
+                // consumed; after EOF: always graceful)
                 note_read_drop(&sh, rd);
+                log_close(&sh, wd, "DR");
                 drop(r);
-                let _ = wt.await;
+                if let Ok(Some(w)) = wt.await {
+                    log_close(&sh, wd, "DW");
+                    drop(w);
+                }
             } else {
-                let keep = wt.await;
-                drop(r);
-                drop(keep);
+                let keep = wt.await.ok().flatten();
+                match (side.read_drop, keep) {
+                    (ReadDrop::AfterWriterWriteFirst, Some(w)) => {
+                        log_close(&sh, wd, "DW");
+                        drop(w);
+                        log_close(&sh, wd, "DR");
+                        drop(r);
+                    }
+                    (ReadDrop::Reunite, Some(w)) => match r.reunite(w) {
+                        Ok(whole) => {
+                            log_close(&sh, wd, "RU");
+                            log_close(&sh, wd, "D");
+                            drop(whole);
+                        }
+                        Err(_) => sh.fail("reunite-of-halves-of-one-stream-failed", format!("endpoint writing dir {wd}")),
+                    },
+                    (_, keep) => {
+                        log_close(&sh, wd, "DR");
+                        drop(r);
+                        if keep.is_some() {
+                            log_close(&sh, wd, "DW");
+                        }
+                        drop(keep);
+                    }
+                }
             }
         }
         Mode::TokioSplit => {
             let (mut r, w) = tokio::io::split(stream);
             let (sh2, side2) = (sh.clone(), side.clone());
-            let wt = tokio::task::spawn_local(async move { writer(sh2, wd, w, Side { close: Close::Shutdown, ..side2 }).await });
+            let plan = close_plan(&side, &[CloseStep::Shutdown]);
+            let wt = tokio::task::spawn_local(async move { writer(sh2, wd, w, side2, plan).await });
             reader_loop(sh.clone(), rd, &mut r, &side, |_r, _sz| None).await;
-            let w = wt.await;
-            note_read_drop(&sh, rd);
-            drop(r);
-            drop(w);
+            // the stream itself is dropped when the second half goes
+            if side.read_drop == ReadDrop::WhenDone && !sh.dirs[rd].borrow().reader_quit {
+                log_close(&sh, wd, "DR");
+                drop(r);
+                let w = wt.await;
+                note_read_drop(&sh, rd);
+                drop(w);
+            } else {
+                let w = wt.await.ok().flatten();
+                note_read_drop(&sh, rd);
+                if side.read_drop == ReadDrop::AfterWriterWriteFirst {
+                    if w.is_some() {
+                        log_close(&sh, wd, "DW");
+                    }
+                    drop(w);
+                    log_close(&sh, wd, "DR");
+                    drop(r);
+                } else {
+                    log_close(&sh, wd, "DR");
+                    drop(r);
+                    if w.is_some() {
+                        log_close(&sh, wd, "DW");
+                    }
+                    drop(w);
+                }
+            }
         }
         Mode::WholeSeq => {
             let mut s = stream;
             if whole_write(&sh, wd, &mut s, &side).await {
-                if let Err(e) = s.shutdown().await {
-                    sh.dirs[wd].borrow_mut().writer_error = Some(format!("shutdown {:?}", e.kind()));
-                }
+                let plan = close_plan(&side, &[CloseStep::Shutdown]);
+                whole_close(&sh, wd, &mut s, plan).await;
                 mark_closed(&sh, wd);
             }
             sh.dirs[wd].borrow_mut().writer_done = true;
             reader_loop(sh.clone(), rd, &mut s, &side, peek_whole).await;
             note_read_drop(&sh, rd);
+            log_close(&sh, wd, "D");
             drop(s);
         }
     }
 }
 
 /// Reply::AfterRead — request/response: read first (to EOF or to the exact quit count, never
-/// reading the EOF), linger, write the reply, close, drop.
+/// reading the EOF), linger, write the reply, run the close sequence, drop.
 async fn responder(sh: Rc<Shared>, stream: TcpStream, side: Side, wd: usize, rd: usize) {
     let linger = Duration::from_millis(side.linger_ms as u64);
     match side.mode {
@@ -558,15 +778,29 @@ async fn responder(sh: Rc<Shared>, stream: TcpStream, side: Side, wd: usize, rd:
             let mut r = Some(r);
             if side.half_drop == HalfDrop::ReadBeforeReply {
                 note_read_drop(&sh, rd);
+                log_close(&sh, wd, "DR");
                 drop(r.take());
             }
-            let w = writer(sh.clone(), wd, w, side.clone()).await;
+            let plan = close_plan(&side, &legacy_plan(side.close));
+            let w = writer(sh.clone(), wd, w, side.clone(), plan).await;
             note_read_drop(&sh, rd);
             if side.half_drop == HalfDrop::WriteThenRead {
+                if w.is_some() {
+                    log_close(&sh, wd, "DW");
+                }
                 drop(w);
+                if r.is_some() {
+                    log_close(&sh, wd, "DR");
+                }
                 drop(r);
             } else {
+                if r.is_some() {
+                    log_close(&sh, wd, "DR");
+                }
                 drop(r);
+                if w.is_some() {
+                    log_close(&sh, wd, "DW");
+                }
                 drop(w);
             }
         }
@@ -577,7 +811,9 @@ async fn responder(sh: Rc<Shared>, stream: TcpStream, side: Side, wd: usize, rd:
                 tokio::time::sleep(linger).await;
             }
             // without a shutdown the FIN goes out when the second half (= the stream) is dropped
-            let w = writer(sh.clone(), wd, w, side.clone()).await;
+            let legacy: Vec<CloseStep> = if side.close == Close::Shutdown { vec![CloseStep::Shutdown] } else { vec![] };
+            let plan = close_plan(&side, &legacy);
+            let w = writer(sh.clone(), wd, w, side.clone(), plan).await;
             note_read_drop(&sh, rd);
             if side.half_drop == HalfDrop::WriteThenRead {
                 drop(w);
@@ -586,6 +822,7 @@ async fn responder(sh: Rc<Shared>, stream: TcpStream, side: Side, wd: usize, rd:
                 drop(r);
                 drop(w);
             }
+            log_close(&sh, wd, "D");
         }
         Mode::WholeSeq => {
             let mut s = stream;
@@ -594,15 +831,14 @@ async fn responder(sh: Rc<Shared>, stream: TcpStream, side: Side, wd: usize, rd:
                 tokio::time::sleep(linger).await;
             }
             if whole_write(&sh, wd, &mut s, &side).await {
-                if side.close == Close::Shutdown {
-                    if let Err(e) = s.shutdown().await {
-                        sh.dirs[wd].borrow_mut().writer_error = Some(format!("shutdown {:?}", e.kind()));
-                    }
-                }
+                let legacy: Vec<CloseStep> = if side.close == Close::Shutdown { vec![CloseStep::Shutdown] } else { vec![] };
+                let plan = close_plan(&side, &legacy);
+                whole_close(&sh, wd, &mut s, plan).await;
                 mark_closed(&sh, wd);
             }
             sh.dirs[wd].borrow_mut().writer_done = true;
             note_read_drop(&sh, rd);
+            log_close(&sh, wd, "D");
             drop(s);
         }
     }
@@ -740,11 +976,12 @@ pub fn run(sc: &Scenario) -> Outcome {
     let dir_time = |w: &Side, r: &Side| -> u64 {
         let bytes: u64 = w.chunks.iter().map(|c| *c as u64).sum();
         let wp: u64 = (0..w.chunks.len()).map(|i| if w.write_pauses.is_empty() { 0 } else { w.write_pauses[i % w.write_pauses.len()] as u64 }).sum();
-        let plan: Vec<(u16, bool, u8)> = if r.reads.is_empty() { vec![(64, false, 0)] } else { r.reads.clone() };
+        let plan: Vec<(u32, bool, u8)> = if r.reads.is_empty() { vec![(64, false, 0)] } else { r.reads.clone() };
+        let close_waits: u64 = w.close_steps.iter().map(|s| if let CloseStep::Wait(ms) = s { *ms as u64 + 1 } else { 0 }).sum();
         let min_buf = plan.iter().map(|x| x.0 as u64).filter(|b| *b > 0).min().unwrap_or(64);
         let cycle_cost: u64 = plan.iter().map(|x| x.2 as u64 + 2).sum();
         let progress_reads = bytes.div_ceil(min_buf.max(1)) + w.chunks.len() as u64 + 3;
-        wp + r.reader_delay as u64 + r.linger_ms as u64 + w.linger_ms as u64 + progress_reads * cycle_cost
+        wp + close_waits + r.reader_delay as u64 + r.linger_ms as u64 + w.linger_ms as u64 + progress_reads * cycle_cost
     };
     // the connections run one after the other: the budget is the sum of the per-connection budgets
     let last_fault = sc.faults.iter().map(|f| f.0 as u64).max().unwrap_or(0);
@@ -753,7 +990,7 @@ pub fn run(sc: &Scenario) -> Outcome {
         let segs = (c.chunks.len() + s.chunks.len()) as u64;
         let pauses: u64 = dir_time(c, s) + dir_time(s, c);
         let total_bytes: u64 = c.chunks.iter().chain(s.chunks.iter()).map(|c| *c as u64).sum();
-        budget += 10 * (segs + 4) * (lat_max / tick + 2) + (pauses * 8 + total_bytes * 2 + *gap as u64) / tick;
+        budget += 10 * (segs + 4) * (lat_max / tick + 2) + (pauses * 8 + total_bytes.min(8192) * 2 + *gap as u64) / tick;
     }
 
     let mut partitioned_ever = false;
@@ -1017,6 +1254,67 @@ pub fn run(sc: &Scenario) -> Outcome {
             }
         }
     }
+    // ---------------- close sequences and big single writes / reads (classification)
+    let mut read_after_shutdown_drop = false;
+    for (k, (_, cside, sside)) in conns.iter().enumerate() {
+        let sh = &shs[k];
+        if !*sh.connected.borrow() {
+            continue;
+        }
+        for e in 0..2 {
+            let side = if e == 0 { cside } else { sside };
+            let log = sh.close_log[e].borrow();
+            if !side.close_steps.is_empty() || side.read_drop != ReadDrop::AfterWriter {
+                let role = if side.reply == Reply::AfterRead { "responder" } else { "concurrent" };
+                // consecutive repeated shutdowns are one class
+                let mut seq: Vec<&str> = Vec::new();
+                for ev in log.iter() {
+                    if !(*ev == "S+" && seq.last() == Some(&"S+")) {
+                        seq.push(ev);
+                    }
+                }
+                out.label(format!("close-order {:?} {role}: {}", side.mode, seq.join(">")));
+                if log.iter().any(|x| *x == "S+") {
+                    out.label("shutdown repeated");
+                }
+                if log.iter().any(|x| *x == "RU") {
+                    out.label("halves reunited before the drop");
+                }
+                let pos = |ev: &str| log.iter().position(|x| *x == ev);
+                if let (Some(dr), Some(w)) = (pos("DR"), pos("S").or(pos("DW"))) {
+                    if dr < w {
+                        out.label(format!("read half dropped before the write side was closed ({:?})", side.mode));
+                    }
+                }
+            }
+            if let Some(at) = *sh.read_at_shutdown_drop[e].borrow() {
+                out.label(format!("shutdown then write-half drop while the read half lives on ({:?})", side.mode));
+                if sh.dirs[1 - e].borrow().consumed > at {
+                    out.label(format!("shutdown then write-half drop, reader read more bytes afterwards ({:?})", side.mode));
+                    read_after_shutdown_drop = true;
+                }
+            }
+        }
+        for d in 0..2 {
+            let g = sh.dirs[d].borrow();
+            for (lim, name) in [(1usize << 20, "1 MiB"), (65_536, "64 KiB"), (4096, "4 KiB")] {
+                if g.max_write >= lim {
+                    out.label(format!("single write call accepted >= {name}"));
+                    break;
+                }
+            }
+            if g.max_write == 65_535 {
+                out.label("single write call accepted exactly 65535");
+            }
+            for (lim, name) in [(65_536usize, "64 KiB"), (4096, "4 KiB")] {
+                if g.max_read >= lim {
+                    out.label(format!("single read call returned >= {name}"));
+                    break;
+                }
+            }
+        }
+    }
+    let big_write = shs.iter().any(|sh| sh.dirs.iter().any(|d| d.borrow().max_write >= 65_536 && d.borrow().consumed >= 65_536));
     // ---------------- sequences of connections between the same two endpoints
     let opened = shs.iter().filter(|sh| *sh.connected.borrow()).count();
     let mut reconnect_outstanding = false;
@@ -1062,13 +1360,51 @@ pub fn run(sc: &Scenario) -> Outcome {
         out.label("manual-order");
     }
     out.count("bytes delivered", shs.iter().map(|sh| sh.dirs.iter().map(|d| d.borrow().consumed as u64).sum::<u64>()).sum());
-    out.nontrivial = reorder_possible || any_bp || fin_while_full || reconnect_outstanding || graceful_quit_with_reply || sc.manual_order.as_ref().map(|o| o.len() >= 2).unwrap_or(false);
+    out.nontrivial = reorder_possible || any_bp || fin_while_full || reconnect_outstanding || graceful_quit_with_reply || read_after_shutdown_drop || big_write || sc.manual_order.as_ref().map(|o| o.len() >= 2).unwrap_or(false);
     out
 }
 
+/// Size of one "big" write call: around the 64 KiB boundary, a few hundred KB, 1 MiB.
+fn big_chunk_strategy() -> BoxedStrategy<u32> {
+    prop_oneof![
+        2 => Just(65_535u32),
+        3 => Just(65_536u32),
+        3 => Just(65_537u32),
+        2 => 65_538u32..=70_000,
+        2 => Just(100_000u32),
+        2 => 70_001u32..=300_000,
+        1 => Just(1_048_576u32),
+        1 => Just(1_048_577u32),
+    ]
+    .boxed()
+}
+
+fn close_steps_strategy() -> BoxedStrategy<Vec<CloseStep>> {
+    let step = prop_oneof![
+        4 => Just(CloseStep::Shutdown),
+        3 => Just(CloseStep::DropWrite),
+        2 => (0u8..=20).prop_map(CloseStep::Wait),
+    ];
+    prop_oneof![2 => Just(vec![]), 3 => proptest::collection::vec(step, 1..=4)].boxed()
+}
+
 fn side_strategy() -> BoxedStrategy<Side> {
-    let chunk = prop_oneof![3 => Just(1u16), 3 => 1u16..=16, 1 => 17u16..=300];
-    let buf = prop_oneof![1 => Just(0u16), 3 => Just(1u16), 3 => 2u16..=9, 2 => 10u16..=400];
+    // heavy-tailed sizes of single write calls
+    let chunk = prop_oneof![
+        30 => Just(1u32),
+        30 => 1u32..=16,
+        10 => 17u32..=300,
+        2 => 301u32..=1000,
+        1 => prop_oneof![Just(4095u32), Just(4096u32), Just(4097u32), 1001u32..=9000],
+    ];
+    let buf = prop_oneof![
+        20 => Just(0u32),
+        60 => Just(1u32),
+        60 => 2u32..=9,
+        40 => 10u32..=400,
+        4 => 401u32..=5000,
+        2 => prop_oneof![Just(65_535u32), Just(65_536u32), Just(65_537u32), Just(1u32 << 20), 5001u32..=200_000],
+    ];
     (
         prop_oneof![3 => Just(Mode::IntoSplit), 1 => Just(Mode::TokioSplit), 2 => Just(Mode::WholeSeq)],
         proptest::collection::vec(chunk, 0..12),
@@ -1077,15 +1413,57 @@ fn side_strategy() -> BoxedStrategy<Side> {
         proptest::collection::vec((buf, any::<bool>(), prop_oneof![4 => Just(0u8), 1 => 1u8..=8]), 1..5),
         prop_oneof![9 => Just(None), 1 => (0u32..40).prop_map(Some)],
         prop_oneof![3 => Just(0u16), 1 => 1u16..=60],
+        // one big write call somewhere in the stream (beginning, middle or end)
+        prop_oneof![60 => Just(None), 1 => (any::<u16>(), big_chunk_strategy()).prop_map(Some)],
+        close_steps_strategy(),
+        prop_oneof![3 => Just(ReadDrop::AfterWriter), 3 => Just(ReadDrop::WhenDone), 2 => Just(ReadDrop::AfterWriterWriteFirst), 1 => Just(ReadDrop::Reunite)],
     )
-        .prop_map(|(mode, chunks, write_pauses, close, mut reads, reader_quits_after, reader_delay)| {
+        .prop_map(|(mode, mut chunks, write_pauses, close, mut reads, reader_quits_after, reader_delay, big, close_steps, read_drop)| {
             // at least one non-zero buffer so the reader can make progress
             if reads.iter().all(|r| r.0 == 0) {
                 reads.push((3, false, 0));
             }
-            Side { mode, chunks, write_pauses, close, reads, reader_quits_after, reader_delay, reply: Reply::Concurrent, half_drop: HalfDrop::ReadThenWrite, linger_ms: 0 }
+            if let Some((at, size)) = big {
+                let at = crate::engine::pick(at, chunks.len() + 1);
+                chunks.insert(at, size);
+                chunks.truncate(12);
+            }
+            Side { mode, chunks, write_pauses, close, reads, reader_quits_after, reader_delay, reply: Reply::Concurrent, half_drop: HalfDrop::ReadThenWrite, linger_ms: 0, close_steps, read_drop }
         })
         .boxed()
+}
+
+/// Keep the cost of a direction with a large byte volume in check.  The step budget of `run`
+/// allows the reader `(bytes / smallest buffer + chunks + 3) * sum(pause + 2)` ms; an abortive or
+/// partitioned connection may run all the way to that budget, so for streams above 1 KiB the
+/// read plan of `r` is adjusted until that quantity is <= TAME_MS: first the pauses are removed,
+/// then the small (non-zero) buffers are raised.  Streams up to 1 KiB are left untouched.
+fn tame(w: &Side, r: &mut Side) {
+    const TAME_MS: u64 = 3000;
+    let total: u64 = w.chunks.iter().map(|c| *c as u64).sum();
+    if total <= 1024 {
+        return;
+    }
+    let est = |r: &Side| -> u64 {
+        let smallest = r.reads.iter().map(|x| x.0 as u64).filter(|b| *b > 0).min().unwrap_or(64);
+        (total.div_ceil(smallest) + w.chunks.len() as u64 + 3) * r.reads.iter().map(|x| x.2 as u64 + 2).sum::<u64>()
+    };
+    if est(r) <= TAME_MS {
+        return;
+    }
+    for x in r.reads.iter_mut() {
+        x.2 = 0;
+    }
+    if est(r) <= TAME_MS {
+        return;
+    }
+    let per_cycle = 2 * r.reads.len() as u64;
+    let need = (total * per_cycle).div_ceil(TAME_MS / 2).max(1) as u32;
+    for x in r.reads.iter_mut() {
+        if x.0 != 0 && x.0 < need {
+            x.0 += need;
+        }
+    }
 }
 
 /// How far a shaped reader reads.
@@ -1141,10 +1519,10 @@ fn shaping_strategy() -> BoxedStrategy<Option<Shaping>> {
 fn apply_shaping(sh: &Shaping, client: &mut Side, server: &mut Side, seed: u64) {
     let (resp, req) = if sh.responder_is_client { (client, server) } else { (server, client) };
     if sh.min_request && req.chunks.is_empty() {
-        req.chunks.push(1 + (q_mix(seed, 40) % 7) as u16);
+        req.chunks.push(1 + (q_mix(seed, 40) % 7) as u32);
     }
     if sh.min_reply && resp.chunks.is_empty() {
-        resp.chunks.push(1 + (q_mix(seed, 41) % 7) as u16);
+        resp.chunks.push(1 + (q_mix(seed, 41) % 7) as u32);
     }
     // the requester half-closes and keeps reading to EOF
     req.reply = Reply::Concurrent;
@@ -1245,7 +1623,7 @@ pub fn strategy() -> BoxedStrategy<Scenario> {
                 }
                 while ps.chunks.len() < h.server_min_chunks {
                     let i = ps.chunks.len() as u16;
-                    ps.chunks.push(1 + (q_mix(seed, i) % 9) as u16);
+                    ps.chunks.push(1 + (q_mix(seed, i) % 9) as u32);
                 }
                 gaps.push(h.gap_ms);
                 sides.push((c, s));
@@ -1258,6 +1636,11 @@ pub fn strategy() -> BoxedStrategy<Scenario> {
                 if let (Some(shp), false) = (shp, left_early.get(k).copied().unwrap_or(false)) {
                     apply_shaping(shp, c, s, seed);
                 }
+            }
+            for (c, s) in sides.iter_mut() {
+                let (wc, ws) = (c.clone(), s.clone());
+                tame(&wc, s);
+                tame(&ws, c);
             }
             let mut it = sides.into_iter();
             let (client, server) = it.next().unwrap();
@@ -1312,7 +1695,7 @@ fn exhaustive_space(tier: Tier) -> Vec<Scenario> {
     let mut out = Vec::new();
     for k in 1..=kmax {
         for cap in [k, k + 1, 64] {
-            for (delay, bufs) in [(0u16, vec![(64u16, false, 0u8)]), (0, vec![(1, true, 0)]), (40, vec![(2, false, 0)])] {
+            for (delay, bufs) in [(0u16, vec![(64u32, false, 0u8)]), (0, vec![(1, true, 0)]), (40, vec![(2, false, 0)])] {
                 for close in [Close::Shutdown, Close::DropWriteHalf] {
                     for order in perms(k + 1) {
                         out.push(Scenario {
@@ -1326,7 +1709,7 @@ fn exhaustive_space(tier: Tier) -> Vec<Scenario> {
                             listen_localhost: false,
                             client: Side {
                                 mode: Mode::IntoSplit,
-                                chunks: (0..k).map(|i| (i as u16 % 3) + 1).collect(),
+                                chunks: (0..k).map(|i| (i as u32 % 3) + 1).collect(),
                                 write_pauses: vec![],
                                 close,
                                 reads: vec![(8, false, 0)],
@@ -1335,6 +1718,8 @@ fn exhaustive_space(tier: Tier) -> Vec<Scenario> {
                                 reply: Reply::Concurrent,
                                 half_drop: HalfDrop::ReadThenWrite,
                                 linger_ms: 0,
+                                close_steps: vec![],
+                                read_drop: ReadDrop::AfterWriter,
                             },
                             server: Side {
                                 mode: Mode::IntoSplit,
@@ -1347,6 +1732,8 @@ fn exhaustive_space(tier: Tier) -> Vec<Scenario> {
                                 reply: Reply::Concurrent,
                                 half_drop: HalfDrop::ReadThenWrite,
                                 linger_ms: 0,
+                                close_steps: vec![],
+                                read_drop: ReadDrop::AfterWriter,
                             },
                             faults: vec![],
                             manual_order: Some(order),
@@ -1394,6 +1781,8 @@ fn request_response_space() -> Vec<Scenario> {
                                             reply: Reply::Concurrent,
                                             half_drop: HalfDrop::ReadThenWrite,
                                             linger_ms: 0,
+                                            close_steps: vec![],
+                                            read_drop: ReadDrop::AfterWriter,
                                         };
                                         let response = Side {
                                             mode: resp_mode,
@@ -1406,6 +1795,8 @@ fn request_response_space() -> Vec<Scenario> {
                                             reply: Reply::AfterRead,
                                             half_drop,
                                             linger_ms: linger,
+                                            close_steps: vec![],
+                                            read_drop: ReadDrop::AfterWriter,
                                         };
                                         let (client, server) = if responder_is_client { (response, request) } else { (request, response) };
                                         out.push(Scenario {
@@ -1436,6 +1827,161 @@ fn request_response_space() -> Vec<Scenario> {
     out
 }
 
+/// Fixed family: per-endpoint close sequences.  The subject endpoint (into_split / tokio::io::split
+/// / whole stream) writes a 2-chunk request, runs one of the close sequences below on its write
+/// side while its reader keeps reading, and lets go of its read half per `ReadDrop`; the peer
+/// answers AFTERWARDS (it reads the request to EOF or exactly, or it writes slowly with pauses),
+/// so its bytes arrive when the subject's write side is already closed / dropped.
+fn close_sequence_space() -> Vec<Scenario> {
+    use CloseStep::*;
+    let mut out = Vec::new();
+    let modes = [Mode::IntoSplit, Mode::TokioSplit, Mode::WholeSeq];
+    let plans: Vec<Vec<CloseStep>> = vec![
+        vec![Shutdown],
+        vec![DropWrite],
+        vec![Shutdown, DropWrite],
+        vec![Shutdown, Wait(5), DropWrite],
+        vec![Wait(3), Shutdown, DropWrite],
+        vec![Shutdown, Shutdown],
+        vec![Shutdown, Shutdown, DropWrite],
+        vec![Shutdown, Wait(30)],
+    ];
+    for mode in modes {
+        for plan in &plans {
+            for read_drop in [ReadDrop::AfterWriter, ReadDrop::WhenDone, ReadDrop::AfterWriterWriteFirst, ReadDrop::Reunite] {
+                if read_drop == ReadDrop::Reunite && mode != Mode::IntoSplit {
+                    continue;
+                }
+                // peer: 0 = responder reading to EOF, 1 = responder reading exactly the request,
+                // 2 = concurrent slow writer
+                for peer_kind in 0..3 {
+                    for subject_is_client in [true, false] {
+                        for (peer, lat) in [(PeerKind::Remote, (1u32, 1u32)), (PeerKind::Remote, (1, 9)), (PeerKind::SameHostOwnAddr, (1, 1)), (PeerKind::Loopback, (1, 1))] {
+                            let n = out.len();
+                            let subject = Side {
+                                mode,
+                                chunks: vec![3, 1],
+                                write_pauses: vec![],
+                                close: Close::Shutdown,
+                                reads: vec![(if n % 2 == 0 { 16 } else { 1 }, n % 3 == 0, 0)],
+                                reader_quits_after: None,
+                                reader_delay: 0,
+                                reply: Reply::Concurrent,
+                                half_drop: HalfDrop::ReadThenWrite,
+                                linger_ms: 0,
+                                close_steps: plan.clone(),
+                                read_drop,
+                            };
+                            let other = Side {
+                                mode: modes[n % 3],
+                                chunks: vec![2, 3, 1],
+                                write_pauses: if peer_kind == 2 { vec![7] } else { vec![] },
+                                close: if n % 2 == 0 { Close::Shutdown } else { Close::DropWriteHalf },
+                                reads: vec![(if n % 5 < 2 { 4 } else { 3 }, n % 7 == 0, 0)],
+                                reader_quits_after: if peer_kind == 1 { Some(4) } else { None },
+                                reader_delay: 0,
+                                reply: if peer_kind == 2 { Reply::Concurrent } else { Reply::AfterRead },
+                                half_drop: [HalfDrop::ReadThenWrite, HalfDrop::WriteThenRead, HalfDrop::ReadBeforeReply][(n / 3) % 3],
+                                linger_ms: if n % 4 == 1 { 12 } else { 0 },
+                                close_steps: vec![],
+                                read_drop: ReadDrop::AfterWriter,
+                            };
+                            let (mut client, mut server) = if subject_is_client { (subject, other) } else { (other, subject) };
+                            let capacity = if n % 4 == 0 { 1 } else { 3 };
+                            no_double_wholeseq_deadlock(&mut client, &mut server, capacity);
+                            out.push(Scenario {
+                                tick_ms: 1,
+                                lat_min: lat.0,
+                                lat_max: lat.1,
+                                capacity,
+                                v6: n % 8 == 5,
+                                seed: n as u64,
+                                peer,
+                                listen_localhost: false,
+                                client,
+                                server,
+                                faults: vec![],
+                                manual_order: None,
+                                followups: vec![],
+                                strict: false,
+                            });
+                        }
+                    }
+                }
+            }
+        }
+    }
+    out
+}
+
+/// Fixed family: one write call of a size around / above 64 KiB in the middle of a stream of small
+/// writes, for every endpoint mode on the writing side, three read-buffer plans and two peers.
+fn big_write_space() -> Vec<Scenario> {
+    let mut out = Vec::new();
+    for mode in [Mode::IntoSplit, Mode::TokioSplit, Mode::WholeSeq] {
+        for size in [4096u32, 65_534, 65_535, 65_536, 65_537, 65_600, 100_000, 131_071, 131_072, 200_001, 1_048_576] {
+            for at in [0usize, 1, 2] {
+                for reads in [vec![(70_000u32, false, 0u8)], vec![(1 << 20, true, 0), (4096, false, 0)], vec![(997, false, 0), (64, true, 0)]] {
+                    for (peer, lat) in [(PeerKind::Remote, (1u32, 6u32)), (PeerKind::Loopback, (1, 1))] {
+                        let n = out.len();
+                        let mut chunks = vec![5u32, 2];
+                        chunks.insert(at, size);
+                        let wside = Side {
+                            mode,
+                            chunks,
+                            write_pauses: vec![],
+                            close: if n % 2 == 0 { Close::Shutdown } else { Close::DropWriteHalf },
+                            reads: vec![(8, false, 0)],
+                            reader_quits_after: None,
+                            reader_delay: 0,
+                            reply: Reply::Concurrent,
+                            half_drop: HalfDrop::ReadThenWrite,
+                            linger_ms: 0,
+                            close_steps: vec![],
+                            read_drop: ReadDrop::AfterWriter,
+                        };
+                        let mut rside = Side {
+                            mode: [Mode::IntoSplit, Mode::WholeSeq, Mode::TokioSplit][n % 3],
+                            chunks: if n % 2 == 0 { vec![] } else { vec![3] },
+                            write_pauses: vec![],
+                            close: Close::Shutdown,
+                            reads: reads.clone(),
+                            reader_quits_after: None,
+                            reader_delay: if n % 5 == 0 { 9 } else { 0 },
+                            reply: Reply::Concurrent,
+                            half_drop: HalfDrop::ReadThenWrite,
+                            linger_ms: 0,
+                            close_steps: vec![],
+                            read_drop: ReadDrop::AfterWriter,
+                        };
+                        tame(&wside, &mut rside);
+                        let (mut client, mut server) = if n % 4 < 2 { (wside, rside) } else { (rside, wside) };
+                        let capacity = [1usize, 2, 64][n % 3];
+                        no_double_wholeseq_deadlock(&mut client, &mut server, capacity);
+                        out.push(Scenario {
+                            tick_ms: 1,
+                            lat_min: lat.0,
+                            lat_max: lat.1,
+                            capacity,
+                            v6: n % 8 == 1,
+                            seed: n as u64,
+                            peer,
+                            listen_localhost: false,
+                            client,
+                            server,
+                            faults: vec![],
+                            manual_order: None,
+                            followups: vec![],
+                            strict: false,
+                        });
+                    }
+                }
+            }
+        }
+    }
+    out
+}
+
 /// Clamp a structurally decoded scenario into the generator's domain (fuzz tier).
 pub fn fuzz_sanitize(sc: &mut Scenario) -> bool {
     sc.tick_ms = 1 + sc.tick_ms % 4;
@@ -1453,8 +1999,25 @@ pub fn fuzz_sanitize(sc: &mut Scenario) -> bool {
     }
     for s in sides.iter_mut() {
         s.chunks.truncate(12);
+        // fuzz domain of one write call: 1..=300 mostly; top byte >= 240: up to 70 000; top byte
+        // >= 250: 65 530..=65 545 (the 64 KiB boundary).  No MiB-sized writes here (exec speed);
+        // at most two writes above 4 KiB per side.
+        let mut bigs = 0;
         for c in s.chunks.iter_mut() {
-            *c = 1 + *c % 300;
+            let sel = *c >> 24;
+            *c = if sel >= 250 {
+                65_530 + *c % 16
+            } else if sel >= 240 {
+                1 + *c % 70_000
+            } else {
+                1 + *c % 300
+            };
+            if *c > 4096 {
+                bigs += 1;
+                if bigs > 2 {
+                    *c = 1 + *c % 300;
+                }
+            }
         }
         s.write_pauses.truncate(4);
         for p in s.write_pauses.iter_mut() {
@@ -1462,8 +2025,15 @@ pub fn fuzz_sanitize(sc: &mut Scenario) -> bool {
         }
         s.reads.truncate(5);
         for r in s.reads.iter_mut() {
-            r.0 %= 401;
+            // buffers 0..=400 mostly; top byte >= 250: up to 70 000
+            r.0 = if r.0 >> 24 >= 250 { r.0 % 70_001 } else { r.0 % 401 };
             r.2 %= 9;
+        }
+        s.close_steps.truncate(MAX_CLOSE_STEPS);
+        for st in s.close_steps.iter_mut() {
+            if let CloseStep::Wait(ms) = st {
+                *ms %= 21;
+            }
         }
         if s.reads.iter().all(|r| r.0 == 0) {
             s.reads.push((3, false, 0));
@@ -1495,6 +2065,9 @@ pub fn fuzz_sanitize(sc: &mut Scenario) -> bool {
             }
             fix(c, s);
             fix(s, c);
+            let (wc, ws) = ((**c).clone(), (**s).clone());
+            tame(&wc, s);
+            tame(&ws, c);
         }
     }
     sc.strict = false;
@@ -1524,9 +2097,21 @@ fn check(tier: Tier, seed: u64) -> i32 {
         rr.len()
     );
     ctx.exhaustive("half-close-request-response", &rr_desc, Box::new(rr.into_iter()), &run);
+    let cs = close_sequence_space();
+    let cs_desc = format!(
+        "{} scenarios: per-endpoint close sequences — the subject endpoint (into_split / tokio::io::split / whole stream) writes 2 chunks, then runs one of 8 sequences on its write side (shutdown; drop write half; shutdown then drop, with a wait before / in between; shutdown twice; shutdown twice then drop; shutdown then wait) while its reader keeps reading to EOF, and drops its read half after the writer (read first / write first / reunited) or at once on EOF; the peer (3 modes) answers afterwards: responder reading to EOF, responder reading exactly the request, or concurrent slow writer; either endpoint as client; remote fixed and ranged latency, same-host, 127.0.0.1",
+        cs.len()
+    );
+    ctx.exhaustive("close-sequences", &cs_desc, Box::new(cs.into_iter()), &run);
+    let bw = big_write_space();
+    let bw_desc = format!(
+        "{} scenarios: one write call of 4096 / 65534 / 65535 / 65536 / 65537 / 65600 / 100000 / 131071 / 131072 / 200001 / 1048576 bytes at position 0, 1 or 2 of a stream of small writes, writer in each of the 3 endpoint modes (write / try_write), 3 read-buffer plans (70000; 1 MiB with peek + 4096; 997 + 64 with peek), remote ranged latency and 127.0.0.1, capacity 1 / 2 / 64",
+        bw.len()
+    );
+    ctx.exhaustive("big-writes", &bw_desc, Box::new(bw.into_iter()), &run);
     ctx.random("random", tier.pick(12_000, 160_000), &|| strategy(), &run);
     ctx.finish(
-        "bounded-exhaustive delivery orders of k data segments + FIN (see exhaustive_subspaces) plus random sequences of 1-4 connections between the same two endpoints (half of the cases a single connection; otherwise the same client task opens the next connection to the same listener 0-45 ms, mostly 0 ms, after its endpoint of the previous one returned: after reading to EOF, or after dropping the stream right after connect / after a few bytes while the server is still writing, i.e. graceful and abortive early closes with segments of the old connection still in flight; every connection has its own byte pattern and is checked against the bytes written on THAT connection; the server handles the connections concurrently): tick, ranged or fixed latency, tcp_capacity 1-4 or 64, v4/v6, remote / same-host / 127.0.0.1 peers, both directions concurrently with generated write chunkings (many 1-byte), write pauses, reader buffer sizes including 0 and 1 with interleaved peeks, slow and late readers, three endpoint modes (into_split, tokio::io::split, whole stream with try_write+writable), shutdown or write-half drop, early reader quit, hold/release and partition/repair mid-stream; about 40% of the connections are shaped as half-close request/response (also the fixed family half-close-request-response): one endpoint writes its request, closes its write side and keeps reading to EOF, the other reads first — exactly the request bytes without ever reading the EOF (most), to EOF (control) or 1-3 bytes short (abortive) — lingers 0-90 ms (so the peer's FIN is either still on the wire or queued unread), then writes its reply and drops the whole stream / both tokio halves / both owned halves in either order / the owned read half BEFORE the reply; a fifth of the shaped connections instead keep both endpoints concurrent and only stop one reader at exactly the peer's byte count. A reader that stops before EOF makes the connection abortive only if, when it stopped, the peer had not yet closed its write side or accepted bytes were unconsumed; otherwise (nothing unread, nothing but the FIN can still arrive) the drop is graceful and the delivery half stays in force: the peer must read every reply byte and then EOF, no ConnectionReset/BrokenPipe. Oracle: byte-FIFO model — every read/peek returns the next bytes of the peer's accepted stream and never more than accepted so far; EOF only after the writer closed and all bytes were consumed; on a healthy link with a graceful close every accepted byte and EOF arrive within a configuration-derived step budget. Non-trivial = segments can overtake each other (remote, max > min + tick, >= 2 segments) or a write blocked / returned WouldBlock or FIN met a full receive queue, or a connection was opened while the previous one between the same endpoints still had accepted-but-unconsumed bytes, or a manual delivery order of >= 2 messages, or an endpoint dropped its read side gracefully without reading the peer's EOF and wrote at least one byte. Distinct by scenario hash.",
+        "bounded-exhaustive delivery orders of k data segments + FIN (see exhaustive_subspaces) plus random sequences of 1-4 connections between the same two endpoints (half of the cases a single connection; otherwise the same client task opens the next connection to the same listener 0-45 ms, mostly 0 ms, after its endpoint of the previous one returned: after reading to EOF, or after dropping the stream right after connect / after a few bytes while the server is still writing, i.e. graceful and abortive early closes with segments of the old connection still in flight; every connection has its own byte pattern and is checked against the bytes written on THAT connection; the server handles the connections concurrently): tick, ranged or fixed latency, tcp_capacity 1-4 or 64, v4/v6, remote / same-host / 127.0.0.1 peers, both directions concurrently with generated write chunkings (many 1-byte), write pauses, reader buffer sizes including 0 and 1 with interleaved peeks, slow and late readers, three endpoint modes (into_split, tokio::io::split, whole stream with try_write+writable), shutdown or write-half drop, early reader quit, hold/release and partition/repair mid-stream; sizes of single write calls are heavy-tailed (1-16 mostly, some up to 300, a few up to 1000, about 1% 4095/4096/4097 or 1001-9000, and about 1 side in 60 gets one big write call at a random position of its stream: 65535, 65536, 65537, 65538-70000, 100000, 70001-300000, 1 MiB or 1 MiB + 1 — 4-5% of the cases, 1 MiB in about 0.6%), read buffers likewise (0, 1, 2-9, 10-400 mostly, a few up to 5000, rarely 65535/65536/65537/1 MiB/5001-200000), the byte pattern has no period below 16 MiB so lost or shifted bytes show at every offset; for streams above 1 KiB the read plan of the receiving side is tamed (pauses removed, small buffers raised) so that the run stays within a few thousand steps (also the fixed family big-writes); 60% of the sides carry a close sequence of 1-4 steps (shutdown / drop the write half / wait 0-20 ms, in any order and repetition, normalised: nothing after the drop, no write-half drop on a whole stream, tokio::io::split shuts down before its write half is dropped, the sequence always closes the write side) executed by the writer while the sibling reader keeps reading, and a read-half policy (dropped at once when the reader is done while the writer task may still be busy / after the writer, read half first / after the writer, write half first / halves reunited and dropped as a whole stream), for concurrent endpoints, requesters and responders alike (also the fixed family close-sequences); what a repeated shutdown returns is not checked; about 40% of the connections are shaped as half-close request/response (also the fixed family half-close-request-response): one endpoint writes its request, closes its write side and keeps reading to EOF, the other reads first — exactly the request bytes without ever reading the EOF (most), to EOF (control) or 1-3 bytes short (abortive) — lingers 0-90 ms (so the peer's FIN is either still on the wire or queued unread), then writes its reply and drops the whole stream / both tokio halves / both owned halves in either order / the owned read half BEFORE the reply; a fifth of the shaped connections instead keep both endpoints concurrent and only stop one reader at exactly the peer's byte count. A reader that stops before EOF makes the connection abortive only if, when it stopped, the peer had not yet closed its write side or accepted bytes were unconsumed; otherwise (nothing unread, nothing but the FIN can still arrive) the drop is graceful and the delivery half stays in force: the peer must read every reply byte and then EOF, no ConnectionReset/BrokenPipe. Oracle: byte-FIFO model — every read/peek returns the next bytes of the peer's accepted stream and never more than accepted so far; EOF only after the writer closed and all bytes were consumed; on a healthy link with a graceful close every accepted byte and EOF arrive within a configuration-derived step budget. Non-trivial = segments can overtake each other (remote, max > min + tick, >= 2 segments) or a write blocked / returned WouldBlock or FIN met a full receive queue, or a connection was opened while the previous one between the same endpoints still had accepted-but-unconsumed bytes, or a manual delivery order of >= 2 messages, or an endpoint dropped its read side gracefully without reading the peer's EOF and wrote at least one byte, or an endpoint shut down and then dropped its write half while its read half lived on and read more bytes afterwards, or a single write call of >= 64 KiB was accepted and that much was read. Distinct by scenario hash.",
         &[
             "under partitions or an abortive close only the prefix (safety) half is asserted (per connection: an early quit on one connection does not relax the delivery half of the following ones)",
             "an early quit is abortive (decided when the reader stops, from the harness's own byte counts) unless the peer's writer had already closed and every accepted byte had been consumed; an unread FIN is not unread data (property text: 'a drop while no inbound data is unread'; RFC 9293 3.10.4; comment in ReadHalf::drop)",
@@ -1535,6 +2120,8 @@ fn check(tier: Tier, seed: u64) -> i32 {
             "connections of a sequence are opened strictly one after the other by one client task, so the k-th accept is the k-th connect; a connection that is never opened because an earlier abortive one (no liveness promised) still occupies the client is skipped (label sequence-cut-short)",
             "the default ephemeral port range is used, so on the unchanged tree no two connections of a sequence share a SocketPair",
             "a zero-length read returning Ok(0) is not treated as EOF",
+            "close sequences: an explicit shutdown followed by dropping that same write half (owned, tokio or none for a whole stream) is a graceful close of the write side only: as long as the sibling read half / the stream is alive and reading, the delivery half applies to what the peer sends afterwards; dropping the read half after it returned EOF is graceful whatever the writer is doing; the result of a second shutdown on the same half is not asserted",
+            "a single write call may be of any size up to 1 MiB + 1 (fuzz tier: up to 70 000): whatever count it returns is what the reader must receive, byte for byte; the harness repeats the call for the rest after a short write",
             "two whole-stream sequential endpoints never both write more than the capacity before reading (that would be an application-level deadlock)",
             "liveness is bounded: the step budget is >= 10x the worst schedule the generator can produce",
         ],
